@@ -143,14 +143,15 @@ def _fresh(loader, base, opts):
 def cleanup():
     import glob
     import shutil
-    for d in glob.glob(os.path.join(tempfile.gettempdir(), 'verif_c16_*')):
+    # only this run's own scratch directories: another check of C16 may be running at the same time
+    for d in glob.glob(os.path.join(tempfile.gettempdir(), 'verif_c16_%s_*' % os.environ.get('VERIF_RUN_TAG', 'x'))):
         shutil.rmtree(d, ignore_errors=True)
 
 
 def impl(case):
     import contextlib
     import io
-    with tempfile.TemporaryDirectory(prefix='verif_c16_') as td, contextlib.redirect_stdout(io.StringIO()):
+    with tempfile.TemporaryDirectory(prefix='verif_c16_%s_' % os.environ.get('VERIF_RUN_TAG', 'x')) as td, contextlib.redirect_stdout(io.StringIO()):
         d = pathlib.Path(td)
         return getattr(_Impl, case['kind'])(case, d)
 
